@@ -12,7 +12,9 @@ from vp.memenv import Program, Sandbox, concrete_region
 KEYS = ["a", "b", "c"]
 STORES = ["fs", "fs+cache:1", "memory", "fs+cache:0.0005"]
 PROVENANCE = ["fresh", "disk", "cache"]
-STAGING = ["InMemoryPartition", "OnDiskPartition"]
+STAGING = ["InMemoryPartition", "OnDiskPartition", "InMemoryPartition(defaultdict)"]
+# the third: an in-memory partition whose results mapping is a collections.defaultdict - a mapping for which `key in d` and `d[key]`
+# disagree on absent keys (a parent-only key must still come from the parent, and reading must not invent entries)
 
 
 def value_for(level, key):
@@ -36,6 +38,11 @@ SRC = (
     "    items = {k: value_for(level, k) for i, k in enumerate(KEYS) if MASKS[level] & (1 << i)}\n"
     "    if STAGING[0] == 'InMemoryPartition':\n"
     "        return InMemoryPartition(items)\n"
+    "    if STAGING[0] == 'InMemoryPartition(defaultdict)':\n"
+    "        import collections\n"
+    "        dd = collections.defaultdict(lambda: 'INVENTED')\n"
+    "        dd.update(items)\n"
+    "        return InMemoryPartition(dd)\n"
     "    p = OnDiskPartition()\n"
     "    for k, v in items.items():\n"
     "        p[k] = v\n"
@@ -206,10 +213,11 @@ def passthrough(m0: int, m1: int, pv0: int, tp: int, K: int, staging: int, store
 @obligation(
     "C17.chains",
     covers=("chain-0", "chain-1", "parent-fresh", "parent-disk", "parent-cache", "own-key-wins", "parent-only-key", "ondisk-staging", "empty-level"),
-    split={"store": [0, 1, 2], "staging": [0, 1], "K": [0, 1]},
+    split={"store": [0, 1, 2], "staging": [0, 1, 2], "K": [0, 1]},
     bounds="key alphabet {a,b,c}; merge chains of length K = 0..1 (thorough 2); every presence mask per level (8 each); parent provenance "
            "{computed inside the child = fresh in-memory object, read back from disk, served from the memory cache}; staging partition "
-           "{InMemoryPartition, OnDiskPartition}; values incl. None and a DataFrame; stores {fs, fs+cache, memory}",
+           "{InMemoryPartition, OnDiskPartition, InMemoryPartition over a defaultdict}; values incl. None and a DataFrame; stores {fs, fs+cache, "
+           "memory}",
     variables="choice: masks (3 bits per level), provenance per level, staging, store",
     budget_s={"quick": 170, "thorough": 900},
     choice_vars=5,
@@ -243,8 +251,8 @@ def chains(m0: int, m1: int, pv0: int, K: int, staging: int, store: int):
     "C17.chains_k2",
     covers=("parent-fresh", "parent-disk", "parent-cache"),
     split={"pv0": [0, 1, 2], "pv1": [0, 1, 2]},
-    tier_split={"quick": {"store": [0, 1], "staging": [0]}, "thorough": {"store": [0, 1, 3], "staging": [0, 1]}},
-    bounds="chains of length 2: all 8^3 presence masks x provenance of both parents x staging (quick: in-memory only) x {fs, fs+cache 1 MiB; "
+    tier_split={"quick": {"store": [0, 1], "staging": [0, 1]}, "thorough": {"store": [0, 1, 3], "staging": [0, 1, 2]}},
+    bounds="chains of length 2: all 8^3 presence masks x provenance of both parents x staging (quick: in-memory and on-disk) x {fs, fs+cache 1 MiB; "
            "thorough also fs+cache 512 B}",
     variables="choice: masks, provenances",
     budget_s={"thorough": 1500},
